@@ -2133,6 +2133,14 @@ class Engine:
             ctx.__dict__.setdefault("inline_stack", []).append(finfo.qualname)
             try:
                 return self.inline_call(ctx, finfo, args, kwargs, closure)
+            except PyRaise as pr:
+                # a `raise` statement of a helper that is executed as part of the function under contract IS a raise of
+                # that function (its `raises_here` clauses apply): a check moved into an extracted helper stays checked
+                ov = pr.exc
+                og = ov.fields.get("__origin__") if isinstance(ov, ExcVal) else None
+                if isinstance(og, str) and og.startswith(finfo.qualname + " line"):
+                    ov.fields["__origin__"] = "%s line 0 (in the inlined helper %s)" % (top, og)
+                raise
             finally:
                 ctx.inline_stack.pop()
         return self.inline_call(ctx, finfo, args, kwargs, closure)
